@@ -38,6 +38,38 @@ numbering respected -/
 theorem iprt_spec (n n0 nr : Int) (off : Nat) (hoff : off < 5) (hr : (nr - n0) % 5 = (off : Int)) :
     (n - n0 + 5 - (off : Int)) % 5 = (n - nr) % 5 := Thermal.iprt_spec n n0 nr off hoff hr
 
+/-! ### integer width of the line numbers
+
+The readers hand the calibration the file's own 16-bit line-number field.  Before fix 4cb3134 the cycle position
+was computed in that dtype; the three statements below say exactly when that was right, and exhibit the pass on
+which it was not (found by running the real code at the point the hypothesis `hspan` excludes).  The code now
+converts to plain integers first, which is what `iprtOf` (over `Int`) models for every input. -/
+
+/-- in unsigned 16-bit arithmetic the expression is exact as long as the pass spans at most 65530 numbers -/
+theorem iprtU16_exact (n n0 off : Nat) (h0 : n0 ≤ n) (_hn : n < 65536) (hspan : n - n0 + 5 < 65536) (hoff : off < 5) :
+    ((iprtU16 n n0 off : Nat) : Int) = ((n : Int) - (n0 : Int) + 5 - (off : Int)) % 5 := by
+  unfold iprtU16
+  omega
+
+/-- ... and so it is in signed 16-bit arithmetic (POD), for increasing numbers that fit the field -/
+theorem iprtI16_exact (n n0 : Int) (off : Nat) (h0 : n0 ≤ n) (_hlo : -32768 ≤ n0) (_hhi : n ≤ 32767)
+    (hspan : n - n0 + 5 ≤ 32767) (hoff : off < 5) :
+    iprtI16 n n0 off = (n - n0 + 5 - (off : Int)) % 5 := by
+  unfold iprtI16 wrapI16
+  omega
+
+/-- the span condition cannot be dropped: first line 1, line 65534, reset offset 1 - the 16-bit sum wraps and, because
+65536 = 1 (mod 5), the line is given the NEXT thermometer (replayed on the implementation: known_findings.json,
+property C05, fixed 4cb3134) -/
+theorem iprtU16_wraps_witness :
+    iprtU16 65534 1 1 = 1 ∧ ((65534 : Int) - 1 + 5 - 1) % 5 = 2 := by decide
+
+/-- the two rewrites seeded in round 8 (`(n + (5 - r)) % 5` on absolute numbers; `(phase - off) % 5` on the
+reduced phase) are NOT exact in 16 bits even on short passes - they are exact over the integers, i.e. after the fix -/
+theorem seeded_rewrites_wrap_in_u16 :
+    ((65533 + (5 - 2)) % 65536) % 5 ≠ (65533 + (5 - 2)) % 5 ∧
+    ((1 + 65536 - 3) % 65536) % 5 ≠ ((1 : Int) - 3) % 5 := by decide
+
 /-- on a clean cycle (reset marker below 50 on one residue class of the line numbers, readings of
 at least 50 elsewhere) the search locates exactly the reset class -/
 theorem reset_located (nums : List Int) (prt : List Rat) (ρ : Int) (β : Rat)
